@@ -204,13 +204,17 @@ func iterative(args []string) {
 			if r.Intn(4) == 0 {
 				stub.mate[1] = 1 + r.Intn(3)
 			}
+			if r.Intn(2) == 0 {
+				// a clock with plenty of time: the limits are far away, halting must work all the same
+				opt.TimeControl = lang.Some(searchctl.TimeControl{White: 20 * time.Minute, Black: 20 * time.Minute, Moves: r.Intn(3) * 20})
+			}
 			b := makeRoots(r, 1, false, false, false)[0].b
 			h, ch := it.Launch(ctx, b.Fork(), search.NoTranspositionTable{}, eval.Random{}, opt)
 			// consumer
 			var wg sync.WaitGroup
-			wg.Add(1)
+			consumed := make(chan struct{})
 			go func() {
-				defer wg.Done()
+				defer close(consumed)
 				for pv := range ch {
 					ctl.Mark("consumer.received", pv.Depth)
 				}
@@ -255,6 +259,15 @@ func iterative(args []string) {
 				// depth 1 has been released: a Halt that has not returned by now never will
 				ctl.Mark("halt.stuck")
 				stuck = true
+			}
+			if !stuck {
+				// every Halt has returned: the search must notice, stop, and close its stream
+				select {
+				case <-consumed:
+				case <-time.After(20 * time.Second):
+					ctl.Mark("iter.no-exit")
+					stuck = true
+				}
 			}
 			ctl.WaitCount("iter.exit", 1, 2*time.Second)
 			verifhook.Install(nil)
